@@ -51,6 +51,7 @@ def orderedTasks : List Task → Bool
 def stepLine (s : S) (req resp : List String) : S × List String :=
   match req with
   | ["new", _] => ({ ops := s.ops }, [])
+  | "mismatch" :: prop :: rest => (s, [s!"MON {prop} " ++ " ".intercalate (rest.take 12)])
   | "ent" :: name :: start :: hash :: rest =>
     match decStr name, decTime start, decStr hash, decParam rest with
     | some name, some start, some hash, some (p, a :: b :: c :: d :: k :: occ) =>
